@@ -17,9 +17,11 @@ def make_type(rt, td):
 def _idx(rt, T, s, how, i, n):
     """Secret index for position i of a length-n list in the requested representation."""
     from mpyc.seclists import secindex
+    _idx.last = None
     if how == 'num':
         return T(i)
     uv = [T(int(j == i)) for j in range(n)]
+    _idx.last = (uv, [int(j == i) for j in range(n)])       # the caller's own list: operations must leave it alone
     if how == 'uv':
         return uv
     if how == 'secindex':
@@ -64,16 +66,26 @@ async def party_main(world, p, prog, case):
     deferred = bool(prog.get('deferred'))
     pending = None          # (index in trace, secure result object) of a read that was issued but not yet awaited
     nops = len(prog['ops'])
+    keys_bad = []
+    check_keys = bool(prog.get('check_keys'))
+    used_key = None
+
+    def mkidx(how, i, n):
+        nonlocal used_key
+        key = _idx(rt, T, s, how, i, n)
+        used_key = _idx.last        # captured at once: other parties run at every await
+        return key
     for opi, op in enumerate(prog['ops']):
         name = op[0]
         r = None
+        used_key = None
         if deferred and pending is None and opi + 1 < nops and name in ('get', 'count', 'contains', 'find', 'index') \
                 and not (name != 'get' and not len(s)):
             # MPyC style: the result is a placeholder that is opened LATER; the list is modified (next operation)
             # before anything is awaited, so the result must reflect the list as it was at the call
             if name == 'get':
                 _, how, i = op
-                key = i if how == 'pub' else _idx(rt, T, s, how, i, len(s))
+                key = i if how == 'pub' else mkidx(how, i, len(s))
                 obj = s[key]
             else:
                 obj = getattr(s, name)(T(val(op[1])))
@@ -82,19 +94,19 @@ async def party_main(world, p, prog, case):
             continue
         if name == 'get':
             _, how, i = op
-            key = i if how == 'pub' else _idx(rt, T, s, how, i, len(s))
+            key = i if how == 'pub' else mkidx(how, i, len(s))
             r = _pl(await rt.output(s[key]))
         elif name == 'set':
             _, how, i, v = op
-            key = i if how == 'pub' else _idx(rt, T, s, how, i, len(s))
+            key = i if how == 'pub' else mkidx(how, i, len(s))
             s[key] = T(val(v))
         elif name == 'setplain':
             _, how, i, v = op
-            key = i if how == 'pub' else _idx(rt, T, s, how, i, len(s))
+            key = i if how == 'pub' else mkidx(how, i, len(s))
             s[key] = val(v)
         elif name == 'del':
             _, how, i = op
-            key = i if how == 'pub' else _idx(rt, T, s, how, i, len(s))
+            key = i if how == 'pub' else mkidx(how, i, len(s))
             del s[key]
         elif name == 'delslice':
             _, a, b = op
@@ -107,14 +119,14 @@ async def party_main(world, p, prog, case):
             s[a:b] = [T(val(v)) for v in vs]
         elif name == 'insert':
             _, how, i, v = op
-            key = i if how == 'pub' else _idx(rt, T, s, how, i, len(s) + 1)
+            key = i if how == 'pub' else mkidx(how, i, len(s) + 1)
             s.insert(key, T(val(v)))
         elif name == 'pop':
             _, how, i = op
             if how == 'default':
                 r = _pl(await rt.output(s.pop()))
             else:
-                key = i if how == 'pub' else _idx(rt, T, s, how, i, len(s))
+                key = i if how == 'pub' else mkidx(how, i, len(s))
                 r = _pl(await rt.output(s.pop(key)))
         elif name == 'append':
             s.append(T(val(op[1])) if op[2] else val(op[1]))
@@ -157,7 +169,11 @@ async def party_main(world, p, prog, case):
             pending = None
             trace[k_][2] = await open1(obj)
         trace.append([len(s), await opened(s), r])
-    return {'trace': trace}
+        if check_keys and used_key is not None:
+            got = await opened(used_key[0])
+            if got != used_key[1]:
+                keys_bad.append([opi, got, used_key[1]])
+    return {'trace': trace, 'keys_bad': keys_bad}
 
 
 def _pl(v):
@@ -240,6 +256,11 @@ def judge(fam, case, cfg, w, res):
                 res.violations.append(('wrong-value',
                                        f"party {p.pid}: after op #{k} {prog['ops'][k]}: {what} differs: model {e} seclist {g}"[:500]))
                 return
+        for opi, got, want in p.result.get('keys_bad', []):
+            res.violations.append(('wrong-value',
+                                   f"party {p.pid}: op #{opi} {prog['ops'][opi]} modified the index vector passed by the caller: "
+                                   f"it was {want}, afterwards it is {got}"[:500]))
+            return
     pr = res.info.setdefault('probes', {})
     pr['ops'] = len(prog['ops'])
     for op in prog['ops']:
@@ -352,7 +373,7 @@ def gen(rng, cfg, tier='quick'):
         ops.append(op)
         ref = out[-1][1]
     return {'family': NAME, 'type': td, 'init': init, 'dummy': [0] * len(init), 'ops': ops, 'sender': rng.randrange(cfg.m),
-            'deferred': rng.random() < 0.35}
+            'deferred': rng.random() < 0.35, 'check_keys': rng.random() < 0.5}
 
 
 def shrink_candidates(case):
